@@ -1289,6 +1289,8 @@ type expr =
 | Add of expr * expr
 | CallE of expr * expr
 | Par of expr
+| MCall0 of expr * char list
+| CallT0 of expr * expr
 | MCall1 of expr * char list * expr
 | Get of expr * char list
 | CallT1 of expr * expr * expr
@@ -1317,6 +1319,8 @@ val rw_add : expr -> expr -> nat -> expr * nat
 val arg_act : expr -> act
 
 val rw_mcall : expr -> char list -> expr -> nat -> expr * nat
+
+val rw_mcall0 : expr -> char list -> nat -> expr * nat
 
 val rw :
   (char list -> bool) -> (char list -> bool) -> expr -> nat -> expr * nat
